@@ -165,7 +165,7 @@ PROPS["C17"] = {
     "groups": [
         {"crate": "std", "quick": ["c17::"], "jobs": 8, "mem_gb": 6, "timeout_s": 600},
         # (b) Xen build: on-demand grant regions
-        {"crate": "xen", "quick": ["x17::ondemand_write", "x17::ondemand_atomic_store", "x17::ub_null_base_add"], "thorough": ["x17::"], "jobs": 2, "mem_gb": 26, "timeout_s": 1800, "stubbed": True,
+        {"crate": "xen", "quick": ["x17::ondemand_write", "x17::ondemand_atomic_store", "x17::ub_null_base_add"], "thorough": ["x17::"], "jobs": 1, "mem_gb": 40, "timeout_s": 1800, "stubbed": True,
          "kani_flags": ["-Z", "restrict-vtable"], "unwindset": {"default": 1, "rules": _XEN_RULES}},
     ],
     "bounds": "(a) standard build: parent = every window of a 32-byte buffer, offset and element count unconstrained, element types u8,u16,u32,u64,u128,[u8;3],Le32. "
@@ -234,7 +234,7 @@ PROPS["C10"] = {
     "groups": [
         {"crate": "std", "quick": ["c10::new_region", "c10::from_", "c10::insert1", "c10::remove1", "c10::remove2_result"],
          "thorough": ["c10::insert2_find", "c10::remove2", "c10::remove3_result"],
-         "jobs": 3, "mem_gb": 20, "timeout_s": 1500, "timeout_thorough_s": 3600, "stubbed": True,
+         "jobs": 2, "mem_gb": 28, "timeout_s": 1500, "timeout_thorough_s": 3600, "stubbed": True,
          "unwindset": {"default": 4, "rules": _C10_RULES}},
     ],
     "bounds": "starting map of 1..2 (remove: up to 3) regions with symbolic 64-bit bases and sizes; one insert or one remove with symbolic arguments; "
